@@ -3,9 +3,9 @@
 # run every quick check (none may report a violation), restore /repo.
 WT="$1"; NAME="$2"
 OUT=/verif/seeded/refactors/$NAME; mkdir -p "$OUT"
-(cd "$WT" && git diff -- src > "$OUT/patch.diff"); cp "$WT/REFACTOR.md" "$OUT/" 2>/dev/null
+(cd "$WT" && git diff -- src docs > "$OUT/patch.diff"); cp "$WT/REFACTOR.md" "$WT/CHANGE.md" "$OUT/" 2>/dev/null
 cd /repo || exit 2
-[ -z "$(git status --porcelain -- src)" ] || { echo "/repo/src is dirty; refusing"; exit 2; }
+[ -z "$(git status --porcelain -- src docs)" ] || { echo "/repo/src is dirty; refusing"; exit 2; }
 git apply "$OUT/patch.diff" || { echo "patch does not apply"; exit 2; }
 trap 'git -C /repo checkout -- . ' EXIT
 cd /verif
